@@ -44,7 +44,9 @@ def process_level(ctx, behs, n, pid, text):
     if not pb:
         ctx.cov["skipped"].append("process level: no scenario starts with a successful load")
         return
-    sc = [{"id": i + 1, "replay": 0, "steps": b} for i, b in enumerate(pb)]
+    # every third scenario requests each reload with TWO SIGHUPs a few milliseconds apart (the second arrives while the first
+    # reload is still running; those configurations carry 2 500 filler keys), every second one runs the server with -verbose
+    sc = [{"id": i + 1, "replay": 0, "steps": b, "burst": i % 3 == 2, "verbose": i % 2 == 1} for i, b in enumerate(pb)]
     tf = rl_common.run_process(ctx, sc, "proc-" + pid.lower(), timeout=3000)
     rl_common.judge(ctx, tf, "process level: real binary, SIGHUP reloads, /metrics", pid, text)
     ctx.cov["evaluations"] += len(pb)
